@@ -139,6 +139,8 @@ PLAN = {
 GOAL_CFG = {
     "g_cost": {"Keys": [1, 2, 3, 4], "Hashes": [1, 2, 3, 4], "Clients": [1], "MaxOps": 16, "Ops": ["set", "get"], "BufCap": 3,
                "Costs": [1, 2, 3], "InitMaxCost": 4, "MaxCosts": [4], "MaxGets": 4},
+    "g_costkey": {"Keys": [1, 2, 3, 4], "Hashes": [1, 2, 3, 4], "Clients": [1], "MaxOps": 14, "Ops": ["set", "get"], "BufCap": 3,
+                  "Costs": [1], "KeyCost": "LastKeyCosts2", "InitMaxCost": 3, "MaxCosts": [3], "MaxGets": 4},
     "g_fit": {"Keys": [1, 2, 3], "Hashes": [1, 2, 3], "Clients": [1], "MaxOps": 12, "Ops": ["set", "del", "wait", "get"], "BufCap": 3,
               "Costs": [1, 3], "InitMaxCost": 9, "MaxCosts": [9], "MaxGets": 2},
     "g_zero": {"Keys": [1, 2], "Hashes": [1, 2], "Clients": [1], "MaxOps": 8, "Ops": ["set", "wait", "get"], "BufCap": 3,
@@ -167,7 +169,7 @@ GOAL_CFG = {
                 "Costs": [1], "InitMaxCost": 2, "MaxCosts": [2]},
 }
 GOALS = {
-    "G_RejectWithVictims": "g_cost", "G_TwoVictims": "g_cost", "G_DuplicateVictim": "g_cost", "G_RaiseCost": "g_cost",
+    "G_FillAfterRejVict": "g_costkey", "G_RejectWithVictims": "g_cost", "G_TwoVictims": "g_cost", "G_DuplicateVictim": "g_cost", "G_RaiseCost": "g_cost",
     "G_DroppedUpdate": "g_write", "G_BlockedDel": "g_write", "G_UpdateOfEvicted": "g_upd",
     "G_SweepWithBuffered": "g_ttl", "G_LateApply": "g_ttl", "G_ExpiredUnswept": "g_ttl",
     "G_ClearWithBacklog": "g_clear", "G_ClearWhileBusy": "g_clear", "G_ClearWithPending": "g_clear1",
@@ -180,7 +182,7 @@ GOALS = {
 GOALS_FOR = {
     "C01": ["G_TakeoverExpiredSlot", "G_CollidingDel"],
     "C02": ["G_UpdateOfEvicted", "G_DroppedUpdate", "G_ClearWhileBusy", "G_DelDuringVictims", "G_SetDuringSweepDel", "G_SetDuringClear"],
-    "C03": ["G_RaiseCost", "G_TwoVictims", "G_DuplicateVictim", "G_UpdateOfEvicted", "G_ExactFitAfterShrink", "G_ReAddAfterZeroSweep", "G_SixVictims", "G_ZeroCostVictim"],
+    "C03": ["G_FillAfterRejVict", "G_RaiseCost", "G_TwoVictims", "G_DuplicateVictim", "G_UpdateOfEvicted", "G_ExactFitAfterShrink", "G_ReAddAfterZeroSweep", "G_SixVictims", "G_ZeroCostVictim"],
     "C04": ["G_DroppedUpdate", "G_RejectWithVictims", "G_ClearWithBacklog", "G_ExpiredUnswept", "G_ClearWithPending", "G_SetDuringClear", "G_RefusedRewrite"],
     "C05": ["G_BlockedDel", "G_ClearWithBacklog", "G_DelDuringVictims", "G_WaitBlockedInSend"],
     "C06": ["G_LateApply1", "G_ExpiredUnswept1", "G_SameBucketRewrite1", "G_TTLDropped1", "G_ExactFitAfterShrink"],
@@ -190,7 +192,7 @@ GOALS_FOR = {
     "C13": ["G_RejectWithVictims", "G_BlockedDel", "G_LateApply", "G_UpdateOfEvicted", "G_DelDuringVictims", "G_SweepSkip", "G_SetDuringClear", "G_SweepSkip1", "G_DuplicateVictim", "G_ReAddAfterZeroSweep"],
     "C14": ["G_SweepWithBuffered", "G_LateApply", "G_ExpiredUnswept", "G_SameBucketRewrite", "G_TTLDropped", "G_SweepSkip", "G_SetDuringSweepDel", "G_SweepSkip1", "G_SetDuringSweepDel1", "G_SweepWithBuffered1", "G_ReAddAfterZeroSweep", "G_RefusedRewrite"],
     "C15": ["G_ClearWithBacklog", "G_ClearWhileBusy", "G_ExpiredUnswept", "G_ClearWithPending", "G_TwoClears", "G_SetDuringClear", "G_ClearAfterGetsOnly"],
-    "C17": ["G_RejectWithVictims", "G_DroppedUpdate", "G_UpdateOfEvicted", "G_ClearWhileBusy", "G_ClearWithPending", "G_SetDuringClear", "G_DuplicateVictim", "G_TwoVictims", "G_ExactFitAfterShrink"],
+    "C17": ["G_LateApply", "G_RejectWithVictims", "G_DroppedUpdate", "G_UpdateOfEvicted", "G_ClearWhileBusy", "G_ClearWithPending", "G_SetDuringClear", "G_DuplicateVictim", "G_TwoVictims", "G_ExactFitAfterShrink"],
 }
 
 
@@ -332,7 +334,9 @@ def run(ctx, pid):
     combined = os.path.join(ctx.scratch, "all-traces.ndjson")
     with open(combined, "w") as allf:
         for (name, c, path, n) in groups:
-            trace, summ, d = cachelib.replay(ctx, path, c, name="replay-" + name)
+            # a lead is one behaviour aimed at a corner: it is worth many attempts (each lost `select` costs milliseconds)
+            trace, summ, d = cachelib.replay(ctx, path, c, name="replay-" + name,
+                                             attempts=400 if name.endswith("-leads") else 24)
             for k in total:
                 total[k] += summ.get(k, 0)
             drift_first += [name + ": " + x for x in (summ.get("driftFirst") or [])][:3]
